@@ -26,6 +26,17 @@ JAR = '/opt/veriftools/tla/tla2tools.jar:/opt/veriftools/tla/CommunityModules-de
 NCPU = int(os.environ.get('VERIF_CPUS', '16'))
 
 
+def jvm_slots(per_jvm_gb=2.6):
+    """How many validation JVMs may run at once: bounded by the cores and by the memory that is available NOW
+    (other checks may be running next to this one; an OOM-killed TLC would be a machinery failure)."""
+    try:
+        with open('/proc/meminfo') as f:
+            kb = next(int(l.split()[1]) for l in f if l.startswith('MemAvailable:'))
+        return max(2, min(NCPU, int(kb / 1048576.0 / per_jvm_gb)))
+    except Exception:  # noqa
+        return NCPU
+
+
 class MachineryError(Exception):
     """TLC crashed / produced output we cannot interpret: exit 2, never a VIOLATION."""
 
@@ -237,11 +248,15 @@ def validate_batch(module, events, shards=None, consts=None, timeout=3600, heap=
     bad, skip, stats = [], [], {}
     gen = dist = consumed = 0
     failed = None
-    with ThreadPoolExecutor(max_workers=NCPU) as ex:
+    with ThreadPoolExecutor(max_workers=jvm_slots()) as ex:
         futs = [ex.submit(_run_shard, module, wd, i, parts[i], consts, timeout, heap)
                 for i in range(shards)]
         for fu in futs:
             idx, rc, out = fu.result()
+            if rc in (137, -9, 143, -15) or (rc != 0 and 'OutOfMemoryError' in out):
+                # the JVM was killed from outside (machine out of memory): once more, alone, when the others are done
+                time.sleep(5)
+                idx, rc, out = _run_shard(module, wd, idx, parts[idx], consts, timeout, heap)
             g, d = parse_states(out)
             gen += g
             dist += d
